@@ -956,7 +956,9 @@ struct Managed {
 
 /// Why a process died, from its exit status and what it last wrote to stderr.
 pub fn classify_death(status_desc: &str, errtail: &str) -> (&'static str, String) {
-    if errtail.contains("has overflowed its stack") {
+    if errtail.contains("SIM-DEADLOCK") {
+        ("deadlock", format!("{}: every simulated caller thread is blocked on a lock of the code under test (deadlock)", status_desc))
+    } else if errtail.contains("has overflowed its stack") {
         ("stack_overflow", format!("{}: stack overflow", status_desc))
     } else if errtail.contains("memory allocation of") {
         let line = errtail
